@@ -253,8 +253,17 @@ def task_native(ctx):
         raise RuntimeError('extensions could not be built: %s' % msg)
     src = open(os.path.join(os.path.dirname(os.path.abspath(__file__)),
                             'c17_native_walk.py')).read()
-    r = native.run_venv(src, dict(built=dst, seeds=seeds, rounds=3),
-                        timeout=3000, cwd='/tmp')
+    try:
+        r = native.run_venv(src, dict(built=dst, seeds=seeds, rounds=3),
+                            timeout=3000, cwd='/tmp')
+    except RuntimeError as e:
+        # the real code died under the scenarios (segfault, abort): a
+        # failing case, not a checker error
+        ctx.bounded_check('native.process_died', 'the scenarios of this '
+                          'stand-in, run in one process', 1, False,
+                          dict(problem='the process running the real '
+                               'code died', output=str(e)[-400:]))
+        return
     bound = ('%d random single arrays per class (%s): dims 1-3, 1..69 '
              'particles, uniform h, long/int/float/unsigned and stride-3 '
              'properties, Remote/Ghost-tagged particles behind the real '
@@ -284,6 +293,7 @@ def task_refresh(ctx, repo):
     fn = m.methods('LinkedListNNPS')['_refresh']
     W = m.path
     nc, np_ = z3.Int('ncells'), z3.Int('np')
+    nh = z3.Int('heads_needed')
     head, nxt = carr('head'), carr('next')
     paw = SymObject(None, dict(get_number_of_particles=Native(
         lambda e, s_, a, k, n: np_)), 'paw')
@@ -308,12 +318,16 @@ def task_refresh(ctx, repo):
                   loop_specs=specs, contracts={
                       'LinkedListNNPS._get_number_of_cells': CalleeContract(
                           lambda e, s_, a, k, n: nc),
+                      # a hook: LinkedListNNPS returns its argument,
+                      # BoxSortNNPS (which inherits _refresh and the walk of
+                      # get_spatially_ordered_indices) the number of OCCUPIED
+                      # cells -- any number of heads
                       'LinkedListNNPS._count_occupied_cells': CalleeContract(
-                          lambda e, s_, a, k, n: a[1])},
+                          lambda e, s_, a, k, n: nh)},
                   )
     ex.spec_env['UINT_MAX'] = UINT_MAX
     ex.spec_env['PyList_GetItem'] = Native(lambda e, s_, a, k, n: a[0][a[1]])
-    outs = ex.exec_function(fn, dict(self=obj), State(pc=[nc >= 1,
+    outs = ex.exec_function(fn, dict(self=obj), State(pc=[nc >= 1, nh >= 1,
                                                           np_ >= 0]))
     ctx.function(m, fn, 'LinkedListNNPS._refresh', ex.dropped)
     obs = [o for o in ex.obligations if o.kind in ('inv-entry', 'inv-step',
@@ -324,12 +338,14 @@ def task_refresh(ctx, repo):
         H = e['head'].attrs['data']
         Nx = e['next'].attrs['data']
         obs.append(Obligation('refresh.post.%d' % i_, o.pc, z3.And(
-            S.to_z3(H.length) == nc, S.to_z3(Nx.length) == np_,
-            z3.ForAll([k], z3.Implies(z3.And(0 <= k, k < nc),
+            # as many heads as the hook asks for, all empty, and n_cells --
+            # the bound of every walk over the heads -- is that number
+            S.to_z3(H.length) == nh, S.to_z3(Nx.length) == np_,
+            z3.ForAll([k], z3.Implies(z3.And(0 <= k, k < nh),
                                       z3.Select(H.arr, k) == UINT_MAX)),
             z3.ForAll([k], z3.Implies(z3.And(0 <= k, k < np_),
                                       z3.Select(Nx.arr, k) == UINT_MAX)),
-            S.to_z3(S.cmp('==', e['self'].attrs['n_cells'], nc))), W))
+            S.to_z3(S.cmp('==', e['self'].attrs['n_cells'], nh))), W))
     for o_ in obs:
         o_.extra = dict(o_.extra or {}, backends=['z3'])
     ctx.prove('linked_list.refresh_empties_all_lists', obs, use_nf=False)
